@@ -13,6 +13,23 @@ def tier_of(tier):
     return "thorough" if tier == "thorough" else "quick"
 
 
+def _negate_payloads(path):
+    """flip the sign bit of every stored value of a plotfile (the look-alike at the lexical location must differ from the real
+    plotfile in every non-zero cell, whatever the payload kind)"""
+    pp = refmodel.ParsedPlot(path)
+    for lv in range(pp.nread):
+        pl = pp.levels[lv]
+        for fname in sorted(set(pl.files)):
+            fp = os.path.join(pl.dir, fname)
+            with open(fp, "r+b") as f:
+                for (off, lo, hi, nc, end) in pp.scan_file(lv, fname):
+                    n = int(np.prod([h - l + 1 for l, h in zip(lo, hi)])) * nc
+                    f.seek(end - 8 * n)
+                    a = np.frombuffer(f.read(8 * n), dtype="<u8") ^ np.uint64(1 << 63)
+                    f.seek(end - 8 * n)
+                    f.write(a.tobytes())
+
+
 PATHFORMS_ENABLED = True        # the runner switches it off for checks that spell their paths themselves (PATHFORMS = False)
 
 
@@ -34,14 +51,21 @@ def build(desc, workdir, name="plt00000", prehistory=None, pathform=None):
         if not os.path.islink(os.path.join(workdir, "_lnk")):
             os.symlink(os.path.join("_deep", "_sub"), os.path.join(workdir, "_lnk"))
         try:
-            twin = dict(desc, seed=int(desc.get("seed", 0)) + 777)
+            twin = dict(desc, seed=int(desc.get("seed", 0)) + 778)
             refmodel.write_plotfile(twin, path)
+            _negate_payloads(path)
         except Exception:
             pass
         path = os.path.join(workdir, "_lnk", "..", name)
         ref = refmodel.write_plotfile(desc, os.path.join(deep, name))
     else:
         ref = refmodel.write_plotfile(desc, path)
+    if os.environ.get("KV_TWIN_RUN"):
+        # the runner's twin pre-run (another time step at the same paths): every stored value differs from the case's own
+        try:
+            _negate_payloads(path)
+        except Exception:
+            pass
     if prehistory is None:
         prehistory = key % 2 == 1
     if prehistory and not os.environ.get("KV_NO_PREHISTORY"):
